@@ -60,13 +60,23 @@ func generate(g *value.FunctionGenerator, src string, args []string) (f funcGen.
 }
 
 // evalReal evaluates and forces inside a recover.
-func evalReal(f funcGen.Func[value.Value], args []value.Value) (o bridge.Outcome) {
-	defer func() {
-		if r := recover(); r != nil {
-			o = bridge.Outcome{Err: fmt.Errorf("panic: %v", r), Panic: r}
-		}
+func evalReal(f funcGen.Func[value.Value], args []value.Value) bridge.Outcome {
+	var v value.Value
+	var err error
+	var pan any
+	func() {
+		defer func() {
+			if r := recover(); r != nil {
+				pan = r
+			}
+		}()
+		v, err = f.Eval(args...)
 	}()
-	return bridge.Force(f.Eval(args...))
+	if pan != nil {
+		// a panic that escapes from the evaluation call itself
+		return bridge.Outcome{Err: fmt.Errorf("panic: %v", pan), Panic: pan}
+	}
+	return bridge.Force(v, err)
 }
 
 // isConstAST reports whether the optimised AST of src is a single constant.
